@@ -123,7 +123,14 @@ def _segment(root, case, ops, first_index):
             lv = case["levels"][level]
             if lv["type"] == "ondisk":
                 p = OnDiskPartition()
-                for k in sorted(lv["own"]):
+                ks = sorted(lv["own"])
+                if lv.get("staged") and ks:
+                    # every key first gets the value of the first key, then the others are assigned their own (a key is
+                    # assigned twice, and the value it held is still the value of another key)
+                    for k in ks:
+                        p[k] = mkval(lv["own"][ks[0]], x)
+                    ks = ks[1:]
+                for k in ks:
                     p[k] = mkval(lv["own"][k], x)
             else:
                 import collections
